@@ -36,7 +36,7 @@ OUTSIDE = ['triple lists beyond the bound', 'the anonymous role ":"']
 
 SRC = ['a', 'b1', 'c-d', '-']
 ROLES = [':instance', ':ARG0', 'op1', ':mod-of']
-TGT = ['a', '1.5', '-', 'x', '"x  y\tz"', '"a, b"', '"(p) ^ q"', '"\\""', '""']
+TGT = ['a', '1.5', '-', 'F#', '"C# x  y\tz"', '"a, b"', '"(p) ^ q"', '"\\""', '""']
 COMMA = [',', ', ', ' ,', ' , ']
 CARET = [' ^', ' ^ ', '^', ' ^\n', '\n^ ']
 
